@@ -336,7 +336,7 @@ def setup(ctx):
             ctx.require('contract.' + name, 1, 'this contract must have been evaluated')
         ctx.require('cases.private', 1, 'private-table share of the workload')
         ctx.require('huge.forms', 1, 'whole-number multipliers with a product beyond 2**63')
-        for name in ('mul.zero', 'mul.one', 'mul.numpy', 'iadd.aliased', 'leaf.dict', 'leaf.seq', 'leaf.str', 'leaf.atom', 'leaf.blank-string', 'copy.table-other'):
+        for name in ('mul.zero', 'mul.one', 'mul.numpy', 'iadd.aliased', 'leaf.dict', 'leaf.seq', 'leaf.str', 'leaf.atom', 'leaf.blank-string', 'copy.table-other', 'clone.deepcopy', 'clone.pickle', 'clone.copy', 'scribble'):
             ctx.require('prog.' + name, 1, 'workload feature demanded by the property quantifier')
 
 
@@ -368,9 +368,15 @@ def _compare(ctx, f, want, where, quiet=False):
     problems = []
     atoms = f.atoms
     got = {}
+    from ..atoms import lookup as _lookup
     for a, c in atoms.items():
         k = akey(a)
         got[k] = got.get(k, 0) + c
+        # every atom of a formula is the one object a table serves for it (also after copy / deepcopy / pickle)
+        if not any(_lookup(Tx, k) is a for Tx in _s['tables'].values()):
+            problems.append('%s: the atom %r of the formula is not the object any table serves for (Z, A, charge) = %r'
+                            % (where, a, k))
+            break
     quiet or ctx.evaluated(what='atoms')
     for k in set(got) | set(want):
         w = float(want.get(k, 0))
@@ -431,6 +437,8 @@ def _features(ctx, st):
             ctx.count('prog.mul.float')
     else:
         ctx.count('prog.' + op)
+        if op == 'clone':
+            ctx.count('prog.clone.' + st.get('how', 'deepcopy'))
         if op == 'copy' and st.get('table') and (st['table'] == 'same' or _s['cur_scale'] == 1.0):
             ctx.count('prog.copy.table-' + st['table'])
 
@@ -689,7 +697,7 @@ def generate(ctx):
         yield 'huge', {'table': tname, 'keys': [list(k) for k in pool[:-1]], 'inner': [rng.choice([1, 2, 3, 4]) for _ in pool[:-1]],
                        'mults': [str(m) for m in mults], 'extra': list(pool[-1]), 'nextra': rng.choice([1, 2, 5]),
                        'seed': rng.randrange(1 << 30)}
-    gens = dict((t, ProgramGen(T, rng)) for t, T in _s['tables'].items())
+    gens = dict((t, ProgramGen(T, rng, protocols=True)) for t, T in _s['tables'].items())
     for _ in range(ctx.scale(400, 15000)):
         r = rng.random()
         tname = 'private' if r < 0.1 else ('private_scaled' if r < 0.2 else 'public')
